@@ -98,4 +98,10 @@ CHECKS["C13"] = {
     "text": "initial meshes: all structured 2..4 x 2..4, Delaunay 6-9 points, two meshes with holes, all 3^ne vertex rotations for ne<=4, 576 harness-written Exodus files per geometry (tri3/tri6, 1-3 blocks, named/unnamed/mixed sets, reversed numbering, 4 netCDF containers) and JSON files; actions elevate (32 variants: order 2-5 x bubble x copy flags), merge (every ordered pair x disjoint/equal/absent names), read, create_nodesets_from_sidesets, create_edges on every reached mesh; depth 3 with canonical de-duplication: index ranges, every node used, CCW positive area, sets index existing entities, edge table vs brute force, affine image of reference nodes, shared edge nodes, no duplicate/unused nodes, node count formula, no member lost by merge/read. 10k distinct meshes / 30k transitions quick. Found and fixed the equal-name overwrite in combine_mesh.",
     "note": "reference model in python sets; empty side sets outside the alphabet (a zero-length netCDF dimension cannot be written)",
 }
+CHECKS["C07"] = {
+    "engine": "E-PROD + E-BFS",
+    "technique": "exhaustive product of parameter points x slots x every basis cotangent through the real custom VJP rules vs dense implicit-function-theorem Jacobians; BFS over load-step chains; helper VJPs vs dense jacfwd",
+    "text": "(a) 81 parameter points x {2,3}(,5) dimensions x c4 x inner product x entry point {nonlinear_solve, nonlinear_solve_with_state} x slots {guess, bc, state, design, time} x every basis cotangent: reverse-mode result equals -v'H^-1 G_k from a numpy reference (dense Newton solution, closed-form H and G_k cross-checked against jacfwd of the raw energy); an exception while differentiating is a violation. (b) all load-step chains of length <=3 (4) over 3 actions with path-dependent state: total derivative through the chained rules vs the forward chain rule. (c) MechanicsInverse helper VJPs (residual / state update w.r.t. coordinates, displacements, previous state) for Neohookean and J2 (elastic, yielding, mixed) vs dense jacfwd of an independently composed map, every cotangent; adjoint function space identical to the one built on the moved mesh for every single-node perturbation. 39k evaluations quick / 115k thorough. Found and fixed the stale-signature TypeError in both reverse rules.",
+    "note": SHIM + "Hessian SPD on the alphabet (kappa<=130); settings tol=1e-11, cg_inexact_solve_ratio=1e-12 so the adjoint solve is tight; plane strain helpers only (axisymmetric raises NotImplementedError in the library)",
+}
 NOT_APPLICABLE_REASON = {}
